@@ -179,6 +179,24 @@ func init() {
 				})
 			})
 		}
+		// names with format verbs and other printable oddities (the report is assembled with fmt)
+		verbs := []string{"x", "100%d", "a%%b", "%s", "%!v", "{}"}
+		for n := 1; n <= 3 && !c.Expired(); n++ {
+			enum.DepthSeqs(n, func(d []int) {
+				enum.Tuples(n, len(verbs), func(t []int) {
+					if !c.Take() || c.Expired() {
+						return
+					}
+					names := enum.Pick(verbs, t)
+					if !distinctRoots(enum.Build(d, names)) {
+						return
+					}
+					c.StateN(1)
+					c.Nontrivial()
+					run(d, names, [][]string{nil, {"d"}})
+				})
+			})
+		}
 		for n := 1; n <= maxH && !c.Expired(); n++ {
 			enum.DepthSeqs(n, func(d []int) {
 				enum.Tuples(n, len(c07Names), func(t []int) {
